@@ -1,4 +1,5 @@
 import Hifi.Model.Views
+import Hifi.Model.ViewsDyn
 import Hifi.Drive.Dynamical
 import Hifi.Model.ViewsFloat
 import Hifi.Spec.ViewsFloat
@@ -133,7 +134,12 @@ def handle (op : String) (args : List String) (impl : Impl) : Option Ans :=
           | _, _ => "FAIL:decode")
       | .other w => "FAIL:" ++ w
       | _ => "FAIL:decode"
-    pure { model := "-", spec := sp, branch := "acc17own:" ++ name ++ (if want % 3155760000000000000 == 0 then ":on_century" else "") }
+    -- the model answers too (Model/ViewsDyn.toJdeDyn; the days view through the hardware-float to_unit)
+    let md := toJdeDyn e.dur
+    let m := match toUnitF md "d" with
+      | some f => "ok " ++ showDur md ++ " " ++ showF f
+      | none => "-"
+    pure { model := m, spec := sp, branch := "acc17own:" ++ name ++ (if want % 3155760000000000000 == 0 then ":on_century" else "") }
   | "accf", [name, e] => do
     let e ← parseEp? e
     let (ts, c, u) ← accfSpec name
